@@ -34,7 +34,7 @@ def eof_action(api, eid):
 
 
 SOURCES = [b"aab\nab", b"b\naa", b"ab", b"", b"a\nc\nab", b"cab\n"]
-CONTENTS = [b"ab\na", b"a\0ba", b"b"]
+CONTENTS = [b"ab\na", b"a\0ba", b"b", b""]
 
 
 def make_job(api, eof_assign, knobs, tag, sources=SOURCES, contents=CONTENTS, options=(), cdefs=(), flex_args=(), san=False):
